@@ -1,6 +1,6 @@
 (* C19 — result statistics equal their definitions.
-   Property theorems only; proofs live in proofs/StatsSpec.v, StatsQuantile.v, StatsTotal.v,
-   ExperSpec.v, ExperBest.v.
+   Property theorems only; proofs live in proofs/StatsSpec.v, StatsQuantile.v, StatsTotal.v, StatsFloatTotal.v,
+   ExperSpec.v, ExperBest.v, ExperFill.v.
 
    Vocabulary.  [xnum] is the number structure "real numbers plus one not-a-number value"
    ([xr] = option R, None = NaN; x/0 and sqrt of a negative are None, comparisons with None are
@@ -10,7 +10,7 @@
    the number of elements of xs that are <= q.  Over [xr] a result [Ok (Some v)] is the real
    number v, [Ok None] is NaN and [GoPanic _] a panic. *)
 From Coq Require Import List ZArith Bool Floats Reals Permutation.
-From NeatModel Require Import Res Stats Exper StatsSpec StatsQuantile StatsTotal ExperSpec ExperBest.
+From NeatModel Require Import Res Stats Exper StatsSpec StatsQuantile StatsTotal ExperSpec ExperBest ExperFill StatsFloatTotal.
 Import ListNotations.
 Open Scope R_scope.
 
@@ -138,21 +138,27 @@ Theorem C19_never_panics : forall l : list xr,
 Proof. exact x_never_panics. Qed.
 Print Assumptions C19_never_panics.
 
-(* binary64, every series of floats (NaN, infinities, signed zeros included): Min/Max never panic;
-   the quantiles never panic with "x data are not sorted" (what 8399ba2 repaired), "percentile
-   out of bounds", "zero length" or an index error.  Not proved for binary64:
-   that panic("impossible") is unreachable, see C19_float_quantiles_total_full. *)
-Theorem C19_never_panics_float_partial : forall l : list float,
+(* binary64, every series of floats (NaN, infinities, signed zeros included) shorter than 2^53
+   elements: none of the five statistics panics.  The length hypothesis is needed: counting
+   cumsum++ in binary64 stops at 2^53, so for a (physically impossible) series of more than 2^54
+   elements gonum's empiricalQuantile would reach its panic("impossible"). *)
+Theorem C19_never_panics_float : forall l : list float, (Z.of_nat (length l) < 2 ^ 53)%Z ->
+  (exists v, F_min fnum l = Ok v) /\ (exists v, F_max fnum l = Ok v) /\
+  (exists v, F_median fnum l = Ok v) /\ (exists v, F_q25 fnum l = Ok v) /\ (exists v, F_q75 fnum l = Ok v).
+Proof.
+  intros l Hl. exact (conj (min_total fnum l) (conj (max_total fnum l) (f_quantiles_total l Hl))).
+Qed.
+Print Assumptions C19_never_panics_float.
+
+(* binary64, any length: Min/Max never panic; the quantiles never panic with "x data are not
+   sorted" (what 8399ba2 repaired), "percentile out of bounds", "zero length" or an index error *)
+Theorem C19_never_sort_panic_float_any_length : forall l : list float,
   (exists v, F_min fnum l = Ok v) /\ (exists v, F_max fnum l = Ok v) /\
   ((exists v, F_median fnum l = Ok v) \/ F_median fnum l = GoPanic panic_impossible) /\
   ((exists v, F_q25 fnum l = Ok v) \/ F_q25 fnum l = GoPanic panic_impossible) /\
   ((exists v, F_q75 fnum l = Ok v) \/ F_q75 fnum l = GoPanic panic_impossible).
 Proof. exact f_never_panics. Qed.
-Print Assumptions C19_never_panics_float_partial.
-
-Definition C19_float_quantiles_total_full : Prop := forall l : list float,
-  (Z.of_nat (length l) < 2 ^ 53)%Z ->
-  (exists v, F_median fnum l = Ok v) /\ (exists v, F_q25 fnum l = Ok v) /\ (exists v, F_q75 fnum l = Ok v).
+Print Assumptions C19_never_sort_panic_float_any_length.
 
 (* the sorted copy is what makes the quantiles total: for any number structure with an
    asymmetric "<" that is false on NaN it passes stat.Quantile's sortedness test *)
@@ -289,6 +295,26 @@ Theorem C19_generation_average : forall (fs az cs : list R) (g : @generation xr)
    match cs with [] => None | _ => Some (sumR cs / INR (length cs)) end).
 Proof. exact g_average_real. Qed.
 Print Assumptions C19_generation_average.
+
+(* Generation.FillPopulationStatistics: per species its age and the fitness / complexity of a best
+   organism; for a generation not yet solved the champion is a best organism over all species
+   (left as it was when no fitness exceeds float64(math.MinInt64), the starting value of the
+   running maximum); for every valid outcome of the sorts *)
+Theorem C19_fill_population_statistics : forall solved champ0 (ss : list (@species xr)) ks d ages cplx fits c,
+  Forall (fun s => Forall (fun o => exists f h, o_fitness o = Some f /\ o_hfit o = Some h) (s_orgs s)) ss ->
+  g_fill xnum solved champ0 ss ks = Ok (d, (ages, cplx, fits, c)) ->
+  d = Z.of_nat (length ss) /\
+  exists bs,
+    Forall2 (fun s b => In b (s_orgs s) /\ forall o', In o' (s_orgs s) -> fitR o' <= fitR b) ss bs /\
+    ages = map (fun s => Some (IZR (s_age s))) ss /\
+    cplx = map (fun b => Some (IZR (o_cplx b))) bs /\
+    fits = map (fun b => o_fitness b) bs /\
+    (solved = true -> c = champ0) /\
+    (solved = false ->
+       (c = champ0 /\ forall b, In b bs -> fitR b <= IZR min_int64) \/
+       (exists b, c = Some b /\ In b bs /\ IZR min_int64 < fitR b /\ forall b', In b' bs -> fitR b' <= fitR b)).
+Proof. exact g_fill_spec. Qed.
+Print Assumptions C19_fill_population_statistics.
 
 (* BestOrganism of a trial: for EVERY outcome of the unspecified sort.Sort that the model accepts
    (oracle k), the result is one of the candidate champions (all generations, or the solved ones)
